@@ -1406,6 +1406,7 @@ Proof.
   - apply OwnInv_k_deliver, H.
   - apply OwnInv_k_egress, H.
   - eapply OwnInv_same; [| | | |exact H]; reflexivity.
+  - eapply OwnInv_same; [| | | |exact H]; reflexivity.
 Qed.
 
 Lemma OA_orun es o :
